@@ -21,3 +21,12 @@ Inductive hstmt :=
 | HCallReset                     (* Reset(); *)
 | HEnterFirst                    (* Enter<<<<STATE_0>>>>(); *)
 | HSetEstateFirst.               (* estate = E<Name>State.<<<STATE_0>>>; *)
+
+(* Statements of the THREADED configuration (SM_THREAD_1): the tail of Trigger<Event> after the event object is built,
+   and the body of the dispatch thread's  while(true) { ... }  loop; translator/cstmpl.py parses them out of the templates. *)
+Inductive tstmt :=
+| QEnqueue               (* dispatchQ.Enqueue(evt); *)
+| QSet                   (* <signal>.Set(); *)
+| QWaitOne               (* <signal>.WaitOne();   (AutoResetEvent) *)
+| QTryDequeueDispatch    (* if (dispatchQ.TryDequeue(out IDispatchable next)) { next.Dispatch(this, controller); } *)
+| QSleep.                (* Thread.Sleep(n); *)
